@@ -295,6 +295,12 @@ def gen_case(tp, tier):
                             tp.draw(4) == 0])
             else:
                 ops.append(['bind', inner, raise_at])
+        elif tp.draw(16) == 0:
+            # `yield from s.sync(latency=..., elements=[...])`: the elements
+            # are sent (in real time together with the /sync) at that point
+            ops.append(['syncel', tp.choice(st['synth'] + st['group'])
+                        if st['synth'] + st['group'] else None,
+                        tp.choice([None, 0.25])])
         elif other and tp.draw(5) == 0:
             ops.append(gen_xop(tp, xst))
         else:
@@ -1094,6 +1100,8 @@ def run_world(case, tape, ctx, w):
             if op[0] == 'bindsync':
                 do_bind(['bind', op[1] + op[2], None], t_logical)
                 continue
+            if op[0] == 'syncel':
+                continue        # (a generator call: only from the routine)
             mark = mark_now()
             t_logical_window[0] = elapsed()
             try:
@@ -1126,13 +1134,44 @@ def run_world(case, tape, ctx, w):
         for op in ops:
             if viol or io_failed:
                 return
-            if op[0] == 'bindsync' and rt:
+            if op[0] == 'syncel':
+                yield from do_syncel(op)
+            elif op[0] == 'bindsync' and rt:
                 yield from do_bindsync(op)
             elif op[0] == 'bindsync':
                 do_ops([['bind', op[1] + op[2], None]],
                        main.current_tt._seconds)
             else:
                 do_ops([op], main.current_tt._seconds)
+
+    def do_syncel(op):
+        _, nref, lat = op
+        n = real.get(nref) if nref is not None else None
+        if n is not None and model[nref]['live'] and n.node_id is not None:
+            els = [['/n_run', n.node_id, 1]]
+        else:
+            els = [['/status']]
+        mark = mark_now()
+        t = main.current_tt._seconds
+        try:
+            yield from s.sync(None, lat, [list(m) for m in els])
+        except OSError:
+            bump('F6-send-error')
+            io_failed.append(op)
+            return
+        got = wire_since(mark)
+        bump('sync-with-elements')
+        if rt:
+            # one bundle: the elements, then the /sync with its id
+            if len(got) != 1 or got[0][0] != 'b' or not got[0][2] \
+                    or got[0][2][-1][0] != '/sync':
+                viol.add('C17-3', 'sync-elements',
+                         f'sync(latency={lat}, elements={els}): wire has '
+                         f'{[g[1:3] for g in got]}')
+                return
+            compare(op, [('b', lat, els + [got[0][2][-1]])], got, t)
+        else:
+            compare(op, [('b', lat, els)], got, t)
 
     def do_bindsync(op):
         _, before, after, raise_after = op
